@@ -1235,7 +1235,114 @@ def gen_protocol_case(rng):
     return dict(kind=kind, shape=list(shape), ninf=ninf, index=bad, requests=[fin + orders], extent=extent, exc=rng.choice(["ValueError", "KeyboardInterrupt", "RuntimeError"]))
 
 
+def run_getitem_api_case(case):
+    """dimension_names / name / str(), their propagation to views, series without order axes
+    (n_infinite=0) and scalar series (shape=()); replayable from the seed"""
+    import random
+
+    from pymablock.series import BlockSeries, zero
+
+    rng = random.Random(case["seed"])
+    fails = []
+
+    def fail(what, **kw):
+        fails.append(dict(what=what, input=case, **kw))
+
+    value = lambda i: 1 + sum((5 ** k) * x for k, x in enumerate(i))  # noqa: E731
+    shape = rng.choice([(), (2,), (2, 3), (3, 2)])
+    n = rng.randint(1, 3)
+    names = tuple("p_%s" % c for c in "abc"[:n]) if rng.random() < 0.7 else None
+    name = "H_%d" % rng.randint(0, 9) if rng.random() < 0.7 else None
+    calls = []
+
+    def ev(*i):
+        i = tuple(int(x) for x in i)
+        calls.append(i)
+        return value(i)
+
+    s = BlockSeries(eval=ev, shape=shape, n_infinite=n, dimension_names=names, name=name)
+    want_names = names or tuple("n_%d" % k for k in range(n))
+    if tuple(s.dimension_names) != want_names:
+        fail("dimension_names %r instead of %r" % (s.dimension_names, want_names))
+    if name is not None and s.name != name:
+        fail("name %r instead of %r" % (s.name, name))
+    text = str(s)
+    if s.name not in text or any(str(x) not in text for x in want_names) or any(str(d) not in text for d in shape):
+        fail("str(series) = %r does not show name, finite shape and dimension names" % text)
+    # views keep the number and the names of the order dimensions, and the same elements
+    fin_int = tuple(rng.randrange(d) for d in shape)
+    v = s[fin_int] if shape else s[()]
+    orders = tuple(rng.randint(0, 3) for _ in range(n))
+    if not isinstance(v, BlockSeries) or v.n_infinite != n or tuple(v.dimension_names) != want_names or tuple(v.shape) != ():
+        fail("integer view has n_infinite %r, dimension_names %r, shape %r" % (getattr(v, "n_infinite", None), getattr(v, "dimension_names", None), getattr(v, "shape", None)))
+    elif v[orders] != value(fin_int + orders):
+        fail("integer view element differs from the element of the original", item=list(fin_int + orders))
+    if shape:
+        item = tuple(slice(None) if k else [d - 1, 0] for k, d in enumerate(shape))
+        v2 = s[item]
+        want_shape = np.empty(shape)[item].shape
+        if not isinstance(v2, BlockSeries) or v2.n_infinite != n or tuple(v2.dimension_names) != want_names or tuple(v2.shape) != tuple(want_shape):
+            fail("list/slice view has n_infinite %r, dimension_names %r, shape %r" % (getattr(v2, "n_infinite", None), getattr(v2, "dimension_names", None), getattr(v2, "shape", None)))
+        else:
+            D = np.empty(shape, dtype=object)
+            for i in itertools.product(*(range(d) for d in shape)):
+                D[i] = value(i + orders)
+            sub = D[item]
+            for f in itertools.product(*(range(d) for d in sub.shape)):
+                if v2[f + orders] != sub[f]:
+                    fail("list/slice view element %r differs from dense[item]" % (list(f + orders),))
+                    break
+    # a series without order axes: plain numpy indexing of the finite array, never a view
+    shape0 = rng.choice([(), (2,), (2, 3)])
+    log0 = []
+
+    def ev0(*i):
+        i = tuple(int(x) for x in i)
+        log0.append(i)
+        return zero if sum(i) % 3 == 2 else value(i)
+
+    s0 = BlockSeries(eval=ev0, shape=shape0, n_infinite=0)
+    if s0.dimension_names != ():
+        fail("n_infinite=0 series has dimension_names %r" % (s0.dimension_names,))
+    D0 = np.empty(shape0, dtype=object)
+    for i in itertools.product(*(range(d) for d in shape0)):
+        D0[i] = "zero" if sum(i) % 3 == 2 else value(i)
+    items = [tuple(rng.randrange(d) for d in shape0), tuple(slice(None) for _ in shape0)]
+    if len(shape0) == 2:
+        items.append(([1, 0], slice(1, None)))
+    for item in items:
+        try:
+            got = s0[item]
+        except BaseException as e:  # noqa: BLE001
+            fail("n_infinite=0 series: request %r raised %s" % (item, type(e).__name__))
+            continue
+        want = D0[item]
+        if isinstance(got, BlockSeries):
+            fail("n_infinite=0 series returned a view for %r" % (item,))
+        elif isinstance(want, np.ndarray):
+            g = [_elem(x) for x in np.ma.getdata(got).reshape(-1)]
+            m = [bool(x) for x in np.ma.getmaskarray(got).reshape(-1)]
+            w = list(want.reshape(-1))
+            if g != w or m != [x == "zero" for x in w] or tuple(got.shape) != tuple(want.shape):
+                fail("n_infinite=0 series: %r differs from the dense array" % (item,), expected=w, observed=g)
+        elif _elem(got) != want:
+            fail("n_infinite=0 series: element %r differs" % (item,), expected=want, observed=_elem(got))
+    if len(set(log0)) != len(log0):
+        fail("n_infinite=0 series: an element was evaluated twice")
+    for bad in [tuple(0 for _ in shape0) + (0,), ()] if shape0 else [(0,)]:
+        try:
+            s0[bad]
+            fail("n_infinite=0 series accepted a request with a wrong number of indices: %r" % (bad,))
+        except IndexError:
+            pass
+        except BaseException as e:  # noqa: BLE001
+            fail("%s instead of IndexError for a wrong number of indices %r" % (type(e).__name__, bad))
+    return fails
+
+
 def run_c19_case(case):
+    if case["kind"] == "api":
+        return run_getitem_api_case(case)
     if case["kind"] == "numpy":
         return run_getitem_case(case)
     if case["kind"] == "dependency":
@@ -1252,7 +1359,8 @@ def oracle_getitem(ctx, ncases=None):
     nontrivial = set()
     evaluations = 0
     for k in range(n):
-        case = gen_getitem_case(rng) if rng.random() < 0.55 else gen_protocol_case(rng)
+        r0 = rng.random()
+        case = dict(kind="api", seed=rng.randrange(10**9), shape=[], ninf=0) if r0 < 0.05 else gen_getitem_case(rng) if r0 < 0.57 else gen_protocol_case(rng)
         try:
             f = run_c19_case(case)
         except Exception as e:  # noqa: BLE001
